@@ -9,12 +9,13 @@ def _steps(lines):
     return n
 
 def _extra(lines, verdicts):
-    ops = sum(max(0, len(ln.split("|")[0].split()) - 4) for ln in lines if not ln.startswith("Pb "))
+    ops = sum(max(0, len(ln.split("|")[0].split()) - 4) for ln in lines if not ln.startswith(("Pb ", "Pe ")))
     return {
-        "history_steps_compared": _steps([ln for ln in lines if not ln.startswith("Pb ")]),
+        "history_steps_compared": _steps([ln for ln in lines if not ln.startswith(("Pb ", "Pe "))]),
         "history_ops": ops,
-        "histories": sum(1 for ln in lines if not ln.startswith("Pb ")),
+        "histories": sum(1 for ln in lines if not ln.startswith(("Pb ", "Pe "))),
         "payload_decode_cases": sum(1 for ln in lines if ln.startswith("Pb ")),
+        "encoder_cases": sum(1 for ln in lines if ln.startswith("Pe ")),
         "learn_rejected_steps": sum(ln.count(" rWrongTokenRange~") + ln.count(" rShardNum~") for ln in lines),
         "maintenance_steps": sum(ln.count(" m~") for ln in lines),
         "byte_payload_ops_in_histories": sum(ln.split("|")[0].count(" B/") for ln in lines),
@@ -28,7 +29,7 @@ def _extra(lines, verdicts):
 # per-kind floors (quick, thorough): the evidence must not claim a generator part that did not run
 KIND_FLOORS = {"Hs": (7, 7), "Hx": (17080, 188145), "Hm": (17080, 188145), "Ha": (4913, 83521),
                "Hr": (2000, 10000), "Hi": (2000, 10000), "Hl": (2000, 10000), "Hd": (2000, 10000),
-               "Ht": (20736, 248832), "Pb": (90000, 450000)}
+               "Ht": (20736, 248832), "Pb": (90000, 450000), "Pe": (12000, 60000)}
 
 def _post(lines, verdicts):
     import os, sys
@@ -47,7 +48,7 @@ def _post(lines, verdicts):
         if kinds.get(k, 0) < fl[idx]:
             out.append(("diff", f"(generator part {k})", f"diff coverage-floor kind={k} got={kinds.get(k, 0)} expected>={fl[idx]}"))
     # the tie must really have exercised what the evidence claims
-    steps = _steps([ln for ln in lines if not ln.startswith("Pb ")])
+    steps = _steps([ln for ln in lines if not ln.startswith(("Pb ", "Pe "))])
     r_ops = sum(ln.split("|")[0].count(" R/") for ln in lines)
     maint = sum(ln.count(" m~") for ln in lines)
     rej = sum(ln.count(" rWrongTokenRange~") + ln.count(" rShardNum~") for ln in lines)
@@ -61,6 +62,14 @@ def _post(lines, verdicts):
     for tag, need in (("a:", (10000, 50000)), ("rD", (10000, 50000)), ("rW", (5000, 25000)), ("rS", (2000, 10000)), ("no", (50, 250))):
         if pb.get(tag, 0) < need[idx]:
             out.append(("diff", f"(coverage Pb {tag})", f"diff coverage-floor Pb-outcome={tag} got={pb.get(tag, 0)} expected>={need[idx]}"))
+    pe = {}
+    for ln in lines:
+        if ln.startswith("Pe "):
+            t = ln.rsplit(" ", 1)[1][:2]
+            pe[t] = pe.get(t, 0) + 1
+    for tag, need in (("a:", (2500, 12500)), ("rW", (5000, 25000)), ("rS", (1500, 7500))):
+        if pe.get(tag, 0) < need[idx]:
+            out.append(("diff", f"(coverage Pe {tag})", f"diff coverage-floor Pe-outcome={tag} got={pe.get(tag, 0)} expected>={need[idx]}"))
     leaf = {}
     for ln in lines:
         if ln.startswith("Pb ") and "| rDeserialization:" in ln:
@@ -83,7 +92,7 @@ def _post(lines, verdicts):
 
 SPEC = {
     "pid": "C15",
-    "coq_targets": ["Props/C15.vo", "Extract/ExC15.vo"],   # depend on Model/Cql.vo (C01) for the read primitives
+    "coq_targets": ["Props/C15.vo", "Extract/ExC15.vo"],   # depend on Model/Cql.vo (tie and proofs) and, for the round-trip theorems, on Proofs/Cql_proofs.vo (C01)
     "bin": "c15",
     # --n = number of seeded random histories; the exhaustive parts are always generated
     "sizes": {"quick": 12000, "thorough": 60000},
@@ -91,7 +100,7 @@ SPEC = {
     "rule": ("one case = one whole history run on a fresh TabletsInfo through hook H6 with the complete observation "
              "(flags, tablet list with replicas and unresolved replicas, tablet_for_token / replicas_for_token / "
              "dc_replicas_for_token of every watched token) after EVERY step, compared exactly with the extracted model. "
-             "Learn steps run the REAL RawTablet::from_custom_payload + ClusterState::update_tablets. Parts: Hs 7 scenario histories (incl. the two defects found by this check, F7/F8); Hx breadth-first over EVERY tablet "
+             "Learn steps run the REAL RawTablet::from_custom_payload + ClusterState::update_tablets. Parts: Hs 7 scenario histories + the lines of corpus/C15 (incl. the two defects found by this check, F7/F8); Hx breadth-first over EVERY tablet "
              "range set reachable in an 8-point (quick: 610 sets) / 10-point (thorough: 4181 sets) token universe (i64::MIN, MIN+1, "
              "-1, 0, 1, 5, MAX-1, MAX: single-token, touching, MAX-ending tablets) x every one of the 28 / 45 inserts, followed by a "
              "maintenance step and a re-insert; Hm every reachable set, then a maintenance step, then every insert; Ha all histories of length 3 (quick) / 4 (thorough) over a 17-letter alphabet with "
@@ -104,13 +113,13 @@ SPEC = {
              "that keep / drop / de-tablet / forget tables; a fifth of the random payload events are byte strings (B ops: valid "
              "encodings with 0-2 corruptions); Pb RawTablet::from_custom_payload alone on 8 generated/corrupted byte strings per random "
              "history (truncation, trailing bytes, bit flips, rewritten length/count fields incl. -1/-2/0/MAX/MIN, short uuid/shard, "
-             "missing fields, null list, trash, absent key), decoded content, error class and the LEAF KIND of a deserialisation error compared exactly. non-trivial = histories with at least 2 steps; distinct = distinct case lines"),
-    "nontrivial": lambda ln: ln.startswith("Pb ") or len(ln.split("|")[0].split()) >= 6,
+             "missing fields, null list, trash, absent key), decoded content, error class and the LEAF KIND of a deserialisation error compared exactly; Pe the specification's encoder enc_payload (C15_payload_roundtrip) against the bytes of the crate's own CQL serialiser and of the harness' encoder for 2 generated (a, b, replicas) per random history, plus the decoder's outcome on them against payload_check. non-trivial = every Pb / Pe line and histories with at least 2 steps; distinct = distinct case lines"),
+    "nontrivial": lambda ln: ln.startswith("Pb ") or ln.startswith("Pe ") or len(ln.split("|")[0].split()) >= 6,
     "trusted_base": [
         "spec_step / spec_entry / spec_lookup / restrict_dc (coq/Model/Tablets.v PART 2) are the property text transcribed",
         "hooks (pass-through, #[cfg(scylla_verif)]): scylla::routing::locator::verif_tablets (driver struct around TabletsInfo, "
-        "observations of flags / tablet lists / tablet_for_token / replicas_for_token / dc_replicas_for_token, raw_tablet_from_payload = "
-        "RawTablet::from_custom_payload with the decoded content visible, raw_tablet_from_payload_full = the same with the DeserializationError handed out, TabletsInfo::perform_maintenance), "
+        "observations of flags / tablet lists / tablet_for_token / replicas_for_token / dc_replicas_for_token, raw_tablet_from_payload_full = "
+        "RawTablet::from_custom_payload with the decoded content visible and the DeserializationError handed out, TabletsInfo::perform_maintenance), "
         "scylla::cluster::verif_update_tablets (the real RawTablet::from_custom_payload + the real ClusterState::update_tablets on a "
         "ClusterState value built around the driver's TabletsInfo), scylla::cluster::verif_tablets_maintenance (the real "
         "ClusterState::perform_tablets_maintenance), scylla::cluster::verif_node::node_without_pool",
@@ -118,13 +127,15 @@ SPEC = {
         "bsearch / partition_point_bs (C15_bsearch only, not used by the tie) is a hand transcription of core::slice::binary_search_by "
         "from the NIGHTLY rust-src; the build uses stable 1.95, whose sources are not installed",
         "slice::partition_point is modelled by its contract (index of the partition of a partitioned slice); partitionedness is proved (C15_partitioned)",
-        "HashMap/HashSet arguments are association lists with unique keys; Arc identity = (host, generation, dc) triple",
+        "HashMap/HashSet arguments are association lists, first match wins (the harness builds the maps first-entry-wins, also from lists with duplicate hosts); keyspace lists have unique names; Arc identity = (host, generation, dc) triple",
+        "enc_payload is tied to the crate's CQL serialiser (CqlValue tuple against tuple<bigint,bigint,list<tuple<uuid,int>>>, as the repository's unit tests build tablet payloads), not to a ScyllaDB server",
     ],
     "assumptions": [
         "payload bounds are i64 values (Forall op_i64 hist): they are decoded from 8 bytes",
         "byte payloads: the typed deserialisers of tuple<bigint,bigint,list<tuple<uuid,int>>> are modelled in coq/Model/TabletsPayload.v on top of the read primitives of coq/Model/Cql.v; the error class (Deserialization / WrongTokenRange / ShardNum) and, for Deserialization, the innermost kind of the nested error (ExpectedNonNull / ByteLengthMismatch / RawCqlBytesRead / LengthDeser, extracted by the harness' de_leaf) are compared exactly",
     ],
-    "min_cases": {"quick": 160000, "thorough": 1200000},
+    "min_cases": {"quick": 180000, "thorough": 1300000},
+    "runner_timeout": 9000,   # the single-threaded thorough runner needs ~160 s CPU; generous for a heavily loaded machine
     "post": _post,
     "extra_coverage": _extra,
 }
